@@ -28,7 +28,7 @@ class EEMSRead(Command):
                 "Float": numpy.float64,
                 "Integer": int,
                 "Positive Float": numpy.float64,
-                "Positive Integer": numpy.uint,
+                "Positive Integer": int,
                 "Fuzzy": numpy.float64,
             },
         ),
